@@ -317,8 +317,11 @@ def _summarise(mod, prop, tier, seed, results, findings, t0, replay):
             wall_s=round(wall, 2),
             violations=len(unknown),
         )
-        os.makedirs(os.path.join(VERIF_DIR, "evidence"), exist_ok=True)
-        with open(os.path.join(VERIF_DIR, "evidence", prop + ".json"), "w") as f:
+        # (VERIF_EVIDENCE_DIR: trial runs against patched scratch trees write elsewhere, so that evidence/ only ever holds
+        #  what a run against /repo itself observed)
+        evdir = os.environ.get("VERIF_EVIDENCE_DIR") or os.path.join(VERIF_DIR, "evidence")
+        os.makedirs(evdir, exist_ok=True)
+        with open(os.path.join(evdir, prop + ".json"), "w") as f:
             json.dump(sanitize(json.loads(jdump(ev))), f, indent=1, allow_nan=False)
     print("%s tier=%s seed=%s cases=%d nontrivial=%d %s wall=%.1fs" % (
         prop, tier, seed, sum(counts.values()), n_nontrivial, dict(counts), wall))
